@@ -187,6 +187,7 @@ class Engine:
                 if isinstance(root, ast.Name):
                     self.alias[node.targets[0].id] = root.id
         self.cur_src = "?"
+        self.lemmas_used = set()
         self.spec_depth = 0         # > 0 while evaluating contract / spec expressions (total: no safety VCs)
 
     def evc(self, src, st, guard=()):
@@ -512,6 +513,8 @@ class Engine:
             if nm in self.specs:
                 args = [self.ev(a, st, guard) for a in node.args]
                 return self.specs[nm].apply(self, st, args)
+            if nm in self.registry.lemmas and self.spec_depth > 0:
+                return self.lemma_call(self.registry.lemmas[nm], node, st, guard)
         fv = self.ev(node.func, st, guard) if not isinstance(node.func, ast.Name) else (
             st.env.get(node.func.id) if node.func.id in st.env else PyObj("func", node.func.id))
         if isinstance(fv, PyObj) and fv.kind == "method":
@@ -585,6 +588,23 @@ class Engine:
             return z3.ForAll(bvs, z3.Implies(rng_c, body))
         return z3.Exists(bvs, z3.And(rng_c, body))
 
+    def lemma_call(self, lm, node, st, guard):
+        """lemma instantiation (Dafny-style lemma call): its hypotheses become obligations here, its statement a fact"""
+        args = [self.ev(a, st, guard) for a in node.args]
+        if len(args) != len(lm.params):
+            raise ContractError("lemma %s arity" % lm.name)
+        lst = State({}, st.heap, st.pc, None)
+        for p, a in zip(lm.params, args):
+            lst.env[p] = a
+        if lm.induction is not None:
+            self.emit("lemma_call.%s.base" % lm.name, "lemma-pre", st,
+                      to_z3(lst.env[lm.induction]) >= to_z3(self.evc(lm.base, lst)), guard=guard, note=lm.base)
+        for hname, src in lm.requires.items():
+            self.emit("lemma_call.%s.%s" % (lm.name, hname), "lemma-pre", st, to_bool(self.evc(src, lst, guard)),
+                      guard=guard, note=src)
+        self.lemmas_used.add(lm.name)
+        return to_bool(self.evc(lm.statement, lst, guard))
+
     # ---- calls to functions under contract (modular) ----------------------------------------------------------------
     def call_contract(self, callee, node, st, guard):
         params = callee.param_names
@@ -624,7 +644,7 @@ class Engine:
         if callee.returns is not None:
             res = fresh("ret_" + callee.name, zsort(callee.returns.kind))
             post.env["result"] = res
-        for cname, src in callee.ensures.items():
+        for cname, src in list(callee.ensures.items()) + list(callee.assumed.items()):
             fact = to_bool(self.evc(src, post, guard))
             st.pc.append(z3.Implies(z3.And(*[to_bool(g) for g in guard] + [z3.BoolVal(True)]), fact))
         return res if res is not None else PyObj("none")
@@ -895,6 +915,8 @@ class Engine:
         it = head.fork()
         c = cond(it)
         it.pc.append(c)
+        for hk, hsrc in enumerate((self.contract.hints or {}).get(k, [])):
+            it.pc.append(to_bool(self.evc(hsrc, it)))
         var0 = None
         if spec.get("variant"):
             var0 = to_z3(self.evc(spec["variant"], it))
@@ -916,6 +938,13 @@ class Engine:
         ex = head.fork()
         ex.pc.append(z3.Not(cond(ex)))
         out.append(("normal", ex, None))
+        # cut-point assertions right after the loop (proved on every normal exit, then assumed)
+        for aname, asrc in (self.contract.after_loop or {}).get(k, {}).items():
+            for kind, s2, val in out:
+                if kind == "normal":
+                    t = to_bool(self.evc(asrc, s2))
+                    self.emit("%s.after_loop%d.%s" % (fn, k, aname), "assert", s2, t, s.lineno, note=asrc)
+                    s2.pc.append(t)
         return out
 
     def st_For(self, s, st):
